@@ -222,4 +222,100 @@ theorem foldl_add_map {α : Type} (l : List α) (f : α → K) (z : K) :
   | cons a l ih => simp only [List.foldl_cons, List.map_cons, List.sum_cons]; rw [ih]; ring
 
 
+/-- field-wise zero test (the meaning of `is_zero`) -/
+def IsZeroMP (a : MP2 K) : Prop := a.com.x = 0 ∧ a.com.y = 0 ∧ a.invMass = 0 ∧ a.invI = 0
+
+theorem add_general (a b : MP2 K) (hza : ¬ IsZeroMP a) (hzb : ¬ IsZeroMP b) :
+    letI := fieldNum K sq
+    a.add b =
+      (let m1 := a.invMass⁻¹; let m2 := b.invMass⁻¹
+       let cx := (a.com.x * m1 + b.com.x * m2) * (m1 + m2)⁻¹
+       let cy := (a.com.y * m1 + b.com.y * m2) * (m1 + m2)⁻¹
+       ⟨⟨cx, cy⟩, (m1 + m2)⁻¹,
+        (sq (inertiaOf a + massOf a * ((cx - a.com.x) ^ 2 + (cy - a.com.y) ^ 2)
+            + (inertiaOf b + massOf b * ((cx - b.com.x) ^ 2 + (cy - b.com.y) ^ 2))))⁻¹⟩) := by
+  unfold MP2.add
+  rw [if_neg (by rw [isZero_iff]; exact hza), if_neg (by rw [isZero_iff]; exact hzb)]
+  simp only [shifted_spec, inv_spec, V2.sub, V2.add, V2.smul, fieldNum_sqrt]
+
+theorem sub_general (a b : MP2 K) (hza : ¬ IsZeroMP a) (hzb : ¬ IsZeroMP b) :
+    letI := fieldNum K sq
+    a.sub b =
+      (let m1 := a.invMass⁻¹; let m2 := b.invMass⁻¹
+       let nm := if m1 - m2 < 1 / 8388608 then 0 else m1 - m2
+       let cx := (a.com.x * m1 - b.com.x * m2) * nm⁻¹
+       let cy := (a.com.y * m1 - b.com.y * m2) * nm⁻¹
+       let i0 := inertiaOf a + massOf a * ((cx - a.com.x) ^ 2 + (cy - a.com.y) ^ 2)
+            - (inertiaOf b + massOf b * ((cx - b.com.x) ^ 2 + (cy - b.com.y) ^ 2))
+       ⟨⟨cx, cy⟩, nm⁻¹, (sq (if i0 < 1 / 8388608 then 0 else i0))⁻¹⟩) := by
+  have he : ((mkRat 1 8388608 : ℚ) : K) = 1 / 8388608 := by norm_num
+  unfold MP2.sub
+  rw [if_neg (by simp only [Bool.or_eq_true, isZero_iff]; exact not_or.2 ⟨hza, hzb⟩)]
+  simp only [shifted_spec, inv_spec, V2.sub, V2.smul, fieldNum_sqrt, eps32, fieldNum_lit, he]
+
+
+theorem act_invAct (m : Iso2 K) (hu : m.re * m.re + m.im * m.im = 1) (q : V2 K) :
+    @Iso2.act K (fieldNum K sq) m (@Iso2.invAct K (fieldNum K sq) m q) = q := by
+  rcases q with ⟨x, y⟩
+  simp only [Iso2.act, Iso2.invAct, Iso2.rot, Iso2.invRot, V2.add, V2.sub]
+  congr 1
+  · linear_combination (x - m.t.x) * hu
+  · linear_combination (y - m.t.y) * hu
+
+
+/-- 2-D cross product of plain vectors (spec side) -/
+def cr (a b : V2 K) : K := a.x * b.y - a.y * b.x
+
+/-- shoelace sum `Σ v_i × v_{i+1}` over a list of edges (twice the signed area of a closed chain) -/
+def shoelace (es : List (V2 K × V2 K)) : K := (es.map fun e => cr e.1 e.2).sum
+/-- `Σ (v_i + v_{i+1}) (v_i × v_{i+1})`, x and y components (six times the first moment of a closed chain) -/
+def shoelaceFx (es : List (V2 K × V2 K)) : K := (es.map fun e => (e.1.x + e.2.x) * cr e.1 e.2).sum
+def shoelaceFy (es : List (V2 K × V2 K)) : K := (es.map fun e => (e.1.y + e.2.y) * cr e.1 e.2).sum
+
+/-- telescoping along the path `hd → … → first` produced by `cyclicPairs first (hd :: l)` -/
+theorem path_telescope (p first : V2 K) (l : List (V2 K)) (hd : V2 K) :
+    let es := cyclicPairs first (hd :: l)
+    (es.map fun e => cr ⟨e.1.x - p.x, e.1.y - p.y⟩ ⟨e.2.x - p.x, e.2.y - p.y⟩).sum
+        = shoelace es + cr p hd - cr p first ∧
+    (es.map fun e => (e.1.x + e.2.x + p.x) * cr ⟨e.1.x - p.x, e.1.y - p.y⟩ ⟨e.2.x - p.x, e.2.y - p.y⟩).sum
+        = shoelaceFx es + (first.x + p.x) * cr p first * (-1) + (hd.x + p.x) * cr p hd ∧
+    (es.map fun e => (e.1.y + e.2.y + p.y) * cr ⟨e.1.x - p.x, e.1.y - p.y⟩ ⟨e.2.x - p.x, e.2.y - p.y⟩).sum
+        = shoelaceFy es + (first.y + p.y) * cr p first * (-1) + (hd.y + p.y) * cr p hd := by
+  induction l generalizing hd with
+  | nil =>
+    simp only [cyclicPairs, shoelace, shoelaceFx, shoelaceFy, List.map_cons, List.map_nil, List.sum_cons, List.sum_nil, cr]
+    refine ⟨by ring, by ring, by ring⟩
+  | cons y r ih =>
+    obtain ⟨i1, i2, i3⟩ := ih y
+    simp only [cyclicPairs, shoelace, shoelaceFx, shoelaceFy, List.map_cons, List.sum_cons] at i1 i2 i3 ⊢
+    rw [i1, i2, i3]
+    simp only [cr]
+    refine ⟨by ring, by ring, by ring⟩
+
+theorem sum_map_div {α : Type} (l : List α) (f : α → K) (d : K) :
+    (l.map fun x => f x / d).sum = (l.map f).sum / d := by
+  induction l with
+  | nil => simp
+  | cons a l ih => simp only [List.map_cons, List.sum_cons, ih]; ring
+
+theorem sum_map_mul_right {α : Type} (l : List α) (f : α → K) (d : K) :
+    (l.map fun x => f x * d).sum = (l.map f).sum * d := by
+  induction l with
+  | nil => simp
+  | cons a l ih => simp only [List.map_cons, List.sum_cons, ih]; ring
+
+/-- polar second moment about `c` of a closed chain by the signed-triangle formula in `c`-centred coordinates:
+`Σ (a'×b') (|a'|² + a'·b' + |b'|²) / 12`, `a' = a - c`, `b' = b - c` -/
+def shoelaceJ (c : V2 K) (es : List (V2 K × V2 K)) : K :=
+  (es.map fun e =>
+    cr ⟨e.1.x - c.x, e.1.y - c.y⟩ ⟨e.2.x - c.x, e.2.y - c.y⟩ *
+      (((e.1.x - c.x) ^ 2 + (e.1.y - c.y) ^ 2) + ((e.1.x - c.x) * (e.2.x - c.x) + (e.1.y - c.y) * (e.2.y - c.y))
+        + ((e.2.x - c.x) ^ 2 + (e.2.y - c.y) ^ 2)) / 12).sum
+
+/-- `p` sees every edge of the chain counter-clockwise (it lies in the kernel of the CCW polygon; for a convex CCW
+polygon: any interior or boundary point) -/
+def SeesCCW (p : V2 K) (es : List (V2 K × V2 K)) : Prop :=
+  ∀ e ∈ es, 0 ≤ cr ⟨e.1.x - p.x, e.1.y - p.y⟩ ⟨e.2.x - p.x, e.2.y - p.y⟩
+
+
 end C13
